@@ -332,7 +332,11 @@ def rule_c_d(repo, chk):
     need(rf, 'C13.c: _on_read never fires the request event')
     complete_T = pat.test_edge(lambda tt, pol: pol == 'T' and src(tt).endswith('.is_message_complete()'))
     clen_F = pat.test_edge(lambda tt, pol: pol == 'F' and src(tt) == 'clen')
-    chunk_F = pat.test_edge(lambda tt, pol: pat.fact_matches(pat.compare_fact(tt, pol), "req.headers.get('Transfer-Encoding')", ('!=',), "'chunked'"))
+    # "not chunked" must be the parser's own verdict (the parser decides case-insensitively; a second, different test here would disagree)
+    chunk_F = pat.test_edge(lambda tt, pol: pol == 'F' and src(tt).endswith('.is_chunked()'))
+    own_tests = [n for n in g.nodes if n.kind == 'test' and 'Transfer-Encoding' in src(n.ast)]
+    chk.ob('c', h.ref, 'whether a body is chunked is decided by the parser alone (no second, possibly disagreeing test on the raw header)', not own_tests,
+           loc(h, (own_tests[0].ast if own_tests else h.node)), detail='; '.join(src(n.ast) for n in own_tests), discr='chunked-verdict-from-parser')
     for r in rf:
         q1 = pat.guarded_by(g, r, lambda e: complete_T(e) or clen_F(e))
         q2 = pat.guarded_by(g, r, lambda e: complete_T(e) or chunk_F(e))
